@@ -1,7 +1,6 @@
 package main
 
 import (
-	"encoding/json"
 	"errors"
 	"fmt"
 	"runtime/debug"
@@ -203,8 +202,8 @@ func genericChecks(c call, before *TV, docGo any, b *builder, jsonInput bool) *R
 			r := fail(cl, c.out, "result is not plain JSON data: "+why)
 			return &r
 		}
-		if _, err := json.Marshal(c.raw); err != nil {
-			r := fail("nonjson", c.out, "result does not serialise: "+err.Error())
+		if ok, why := jsonRoundTrip(c.raw, c.out); !ok {
+			r := fail("nonjson", c.out, why)
 			return &r
 		}
 	}
